@@ -60,6 +60,12 @@ Definition with_insert (f : ffresp) (ok : bool) : ffresp :=
        (ff_roots f) (ff_events f) (ff_peersets f) ok.
 
 (* a babbling node with 3 events and two delivered blocks; the same node catching up *)
-Definition st_babbling : nstate := mkNS 0 1000 3 [10; 11] 11 [] false.
-Definition st_suspended : nstate := mkNS 5 1000 3 [10; 11] 11 [] false.
-Definition st_catching_up : nstate := mkNS 1 1000 3 [10; 11] 11 [] false.
+Definition st_babbling : nstate := mkNS 0 1000 3 [10; 11] 11 [] false [1; 2] [] true.
+Definition st_suspended : nstate := mkNS 5 1000 3 [10; 11] 11 [] false [1; 2] [] true.
+Definition st_catching_up : nstate := mkNS 1 1000 3 [10; 11] 11 [] false [1; 2] [] true.
+
+(* the one-event message good_event: event 100, created and sent by validator 7 *)
+Definition good_meta : emeta := mkEM 100 7 7 false.
+(* a correctly signed fork of validator 7's chain (event 999): refused with a "normal" self-parent error *)
+Definition fork_event : wevent := mkWE true [] [] g_bytes s_one true false.
+Definition fork_meta : emeta := mkEM 999 7 7 true.
